@@ -703,6 +703,11 @@ func propC07(w *World, r *Report) {
 	}
 	// K3 / K5 / K6: pixelsChanged
 	checkPixelsChanged(w, r, d, k, "K")
+	// ... and what Detect reports is that verdict (a verdict computed and then lost - shadowed, overwritten - reports
+	// no motion whatever the thresholds say)
+	linkObligations(w, r, propC09, "C09", func(o *Obligation) bool {
+		return o.Rule == "C09.F1" && strings.Contains(o.Construct, "every return of Detect is the selection logic's verdict")
+	}, "K3")
 	// K5: ring sizes
 	var sz string
 	for key := range d.Role {
